@@ -2,7 +2,7 @@
     equal the corresponding functions of the hand-written model, for ALL arguments.  These equalities are what ties
     the model to the code by proof rather than by sampling for the decision tables of src/ext.rs and the integer
     arithmetic of src/body.rs; the property files that depend on them re-export them. *)
-From Coq Require Import NArith Bool List Lia.
+From Coq Require Import NArith ZArith Bool List Lia ZifyBool ZifyN.
 From Hoot Require Import Base Body Url Request Call Flow Gen.
 Open Scope N_scope.
 
@@ -19,5 +19,11 @@ Lemma gen_verify_version_eq m v : gen_verify_version m v = verify_version m v.
 Proof. destruct m, v; reflexivity. Qed.
 
 Lemma gen_is_retaining_eq s : gen_is_retaining s = is_retaining s.
-Proof. reflexivity. Qed.
+Proof.
+  first [ reflexivity
+        | unfold gen_is_retaining, is_retaining;
+          repeat (try reflexivity; try lia; match goal with |- context [if ?c then _ else _] => destruct c eqn:? | |- context [?a =? ?b] => destruct (a =? b) eqn:?
+                                                  | |- context [?a <=? ?b] => destruct (a <=? b) eqn:? | |- context [?a <? ?b] => destruct (a <? b) eqn:? end);
+          try reflexivity; lia ].
+Qed.
 
